@@ -4,11 +4,18 @@ import SqlgrepModel.Props.C03
 /-
 C09 — execution is total: results or an error message, never a crash, never a silently wrapped number.
 
-In the model every Rust panic site is an explicit `Outcome.panic` (so "never panics" is a statement, not an
-accident of totality) and every function is total (structural recursion: termination is checked by Lean).
-This file states that the expression evaluator — where all data-dependent arithmetic lives — never takes
-the panic outcome, for ALL expressions, environments and oracle tables, and that integer arithmetic is
-exact-or-error (no wrap-around). Statement-level totality (`run_never_panics`) is in the second part.
+Where the model has explicit panic outcomes (`Outcome.panic`) "never panics" is a statement with content: the two
+indexing sites of `execute_result` in `Model/Engine.lean` (`cellOf`) are shown unreachable (`run_never_panics`, second
+part of this file); likewise the lowering (Props/C14 `lower_never_panics`) and `extractNear` (Props/C14Lex). The
+evaluator, literal parsing, extraction, reader and printer models contain NO panic constructor — the repaired code has
+no data-reachable panic site left there (checked arithmetic and casts, guarded argument access) and the model mirrors
+that — so `eval_never_panics`, `eval_list_never_panics` and `parse_literal_never_panics` below are true by
+construction: they are regression obligations, not evidence about the code. The evidence that the CODE does not
+panic there is the harness (every case under catch_unwind with overflow checks on). The content of the first part is
+`int_arith_in_range` / `negate_exact` (no silent wrap-around: an INT result is the exact result, within 64 bits),
+`div_by_zero_is_error`, `subscript_total`. All model functions are total (structural recursion: termination is checked
+by Lean). Behaviour the model does not implement answers `oracleMissing` (leap-second arithmetic, STDDEV of
+INTERVAL) and is outside every theorem.
 What no executable model exhibits (panics inside regex / serde_json / chrono, stack exhaustion, allocation
 failure, hangs, non-UTC zones) is covered by the harness runs only (see DESIGN.md section 13).
 -/
